@@ -107,6 +107,45 @@ pub fn run_child(spec: &crate::Spec) -> Report {
             }
             rep.sample(Json::obj().set("strings", strings.iter().map(|s| short(s)).collect::<Vec<_>>()));
         }
+        "builders" => {
+            // every sequence of up to three builder calls (repeats included: a section set twice, a
+            // longer value replaced by a shorter or empty one) on clients with and without defaults
+            let alpha: Vec<Step> = vec![
+                Step::Container("x".into()),
+                Step::Container("".into()),
+                Step::Container("a-longer-container-id".into()),
+                Step::Timestamp(0),
+                Step::Timestamp(u64::MAX),
+                Step::Rate(0.0),
+                Step::Rate(1.0),
+                Step::Tag("".into(), "".into()),
+                Step::TagValue("a-fairly-long-tag-value-to-grow-the-line".into()),
+            ];
+            let seqs = crate::fmt::sequences(&alpha, 3);
+            for (di, (dtags, dcont)) in [
+                (vec![], None),
+                (vec![], Some("".to_string())),
+                (vec![(Some("dk".to_string()), "dv".to_string())], Some("default-container-id".to_string())),
+            ]
+            .into_iter()
+            .enumerate()
+            {
+                let cfg = ClientCfg {
+                    prefix: "p".into(),
+                    tags: dtags,
+                    container: dcont,
+                };
+                for (rowi, val) in [(0usize, Val::I64(-1)), (5, Val::Dur(Duration::from_millis(3))), (15, Val::VF64(vec![1.0, 2.0])), (21, Val::I64(7))] {
+                    for form in [Form::TrySend, Form::Send] {
+                        for steps in &seqs {
+                            let name = format!("builders defaults#{} row={} form={:?} calls={:?}", di, rowi, form, steps);
+                            guarded(&mut rep, &name, |rep| one_call(rep, &cfg, rowi, form, "k", &val, steps));
+                        }
+                    }
+                }
+            }
+            rep.sample(Json::obj().set("builder_call_alphabet", format!("{:?}", alpha)).set("max_calls", 3));
+        }
         "numbers" => {
             let cfg = ClientCfg { prefix: "p".into(), ..Default::default() };
             let floats = [f64::NAN, f64::INFINITY, f64::NEG_INFINITY, 0.0, -0.0, 5e-324, -5e-324, f64::MAX, f64::MIN, f64::MIN_POSITIVE, 1e300, -1e-300, 2.0, -1.0];
